@@ -53,3 +53,27 @@ Example c10_example :
   | Fail _ _ => False
   end.
 Proof. vm_compute. reflexivity. Qed.
+
+(* The registration phase, which the model above does not have as an input: SetComponents registers the components
+   one after the other and panics at the first one whose name is held by a DIFFERENT instance.  Whether a component
+   set is refused is a property of the set ([has_clash]: two requests with one name and two instances), not of the
+   order of its registrations: every permutation of a refused set is refused, every permutation of an accepted one
+   is accepted.  Instances are identities, never addresses (two components may live at one address). *)
+From Coq Require Import Permutation.
+From IocVerif Require Import Model.SingletonRegistry Proofs.SingletonRegistryProofs.
+
+Theorem c10_refusal_order_irrelevant : forall rs rs',
+  Permutation rs rs' -> SingletonRegistry.refused rs = SingletonRegistry.refused rs'.
+Proof. exact refused_perm. Qed.
+
+Theorem c10_refusal_is_of_the_set : forall rs,
+  SingletonRegistry.refused rs = SingletonRegistry.has_clash rs.
+Proof. exact refused_is_has_clash. Qed.
+
+(* two stateless components of different types announcing one name (instances 0 and 1, name 20), a bystander:
+   refused whichever comes first *)
+Example c10_refusal_example :
+  SingletonRegistry.refused [mkReq 0 (Some 20) 10; mkReq 2 None 12; mkReq 1 (Some 20) 11] = true
+  /\ SingletonRegistry.refused [mkReq 1 (Some 20) 11; mkReq 0 (Some 20) 10; mkReq 2 None 12] = true
+  /\ SingletonRegistry.refused [mkReq 0 (Some 20) 10; mkReq 2 None 12; mkReq 0 (Some 20) 10] = false.
+Proof. vm_compute. repeat split. Qed.
